@@ -24,8 +24,8 @@ def sym_chars(ctx, template, prefix='c'):
         else: out.append(t)
     return out, holes
 
-def concretize(ctx, chars):
-    m = ctx.model()
+def concretize(ctx, chars, m=None):
+    m = m or ctx.model()
     if m is None: return None
     return [c if isinstance(c, int) else m.eval(c, model_completion=True).as_long() for c in chars]
 
